@@ -1061,6 +1061,11 @@ func zeroFacts(v *Term, t types.Type) []*Term {
 		}
 	case *types.Pointer, *types.Interface, *types.Map, *types.Slice, *types.Signature, *types.Chan:
 		return []*Term{fact("nil", v)}
+	case *types.Struct:
+		// `var v T` is the empty literal T{}: later field stores describe the value like the fields of a literal would
+		if _, named := t.(*types.Named); named {
+			return []*Term{fact("def", v, mk("lit", typeStr(t)))}
+		}
 	}
 	return nil
 }
